@@ -48,9 +48,6 @@ def main():
         global DEMO_PREFIX
         DEMO_PREFIX = os.environ.get('SEED_DEMO_PREFIX', 'seeddemo%s' % k)
         democmd = os.environ.get('SEED_DEMO_CMD', 'go run ./seeddemo%s' % k)
-        place()
-        rc0, out0 = sh(democmd, cwd=wt)
-        meta['demo_without_change'] = {'cmd': democmd, 'exit': rc0, 'tail': out0[-600:]}
         rc, out = sh('git apply %s' % patch, cwd=wt)
         meta['patch_applies'] = rc == 0
         assert rc == 0, out
@@ -59,8 +56,13 @@ def main():
         rct, outt = sh(TESTS, cwd=wt)
         meta['baseline_tests_pass'] = rct == 0 and 'FAIL' not in outt
         meta['baseline_tests_tail'] = outt[-400:]
+        place()
         rc1, out1 = sh(democmd, cwd=wt)
         meta['demo_with_change'] = {'cmd': democmd, 'exit': rc1, 'tail': out1[-600:]}
+        rc, out = sh('git apply -R %s' % patch, cwd=wt)
+        assert rc == 0, out
+        rc0, out0 = sh(democmd, cwd=wt)
+        meta['demo_without_change'] = {'cmd': democmd, 'exit': rc0, 'tail': out0[-600:]}
         meta['confirmed'] = bool(meta['builds'] and meta['baseline_tests_pass'] and rc0 == 0 and rc1 != 0)
     finally:
         sh('git -C /repo worktree remove --force %s' % wt)
